@@ -44,8 +44,8 @@ META = {
             'NOT decided: thread-count independence (schedules); precondition start <= end of the region is not established by parse_bed (recorded in NOTES).'),
     'C18': ('FileView window invariant and seek/read semantics == isolated range for all offsets (fview); chunking cuts only at line starts, covers the file once, terminates (chunks); indexer: every run start in a probed interval is recorded, sorted by position, repeated chromosome reported as not grouped (index).',
             'NOT decided: recovery path of FileView after an I/O error; BufReader transparency. OPEN FINDING (known_findings.json): an ungrouped file whose interleaving the bisection never probes is indexed as grouped.'),
-    'C19': ('schema parser: every grammar-level loop terminates with measure len - pos, results bounded by input length, no reachable panic (asql_loops); generator declares 3 + extra columns fields (asql_gen); tool stores the supplied text verbatim / generates from the first line (autosql_choice); writer stores the text and derives the field count from it (write_pre).',
-            'NOT decided: tokenizer loops themselves (char_indices on &str is outside Verus; Kani unit asql_tok when enabled is bounded). OPEN FINDING: BED on stdin without --autosql stores the BED3 default.'),
+    'C19': ('schema parser: every grammar-level loop terminates with measure len - pos, results bounded by input length, no reachable panic (asql_loops); generator declares 3 + extra columns fields (asql_gen); tool stores the supplied text verbatim / generates from the first line (autosql_choice); writer stores the text and derives the field count from it (write_pre). The parser\'s functional result at token level: a well-formed field list / declaration is accepted with one field per group, in order, with its type, size, name and comment; `parse_autosql` of the generated schema for n extra columns is ONE declaration with exactly 3 + n fields (asql_parse) - so the header field count that write_pre derives by parsing equals what the generator declared; a field name made of a letter followed by letters and digits is never refused (asql_loops).',
+            'NOT decided: the tokenizer loops themselves (char_indices on &str is outside Verus): Kani unit asql_tok is BOUNDED (strings of a few pieces, incl. multi-byte white space); asql_parse relies on a token model of the tokenizer (assumption A1 prime in its NOTES, cross-checked by enumeration outside the registered checks); texts with several declarations and inputs outside the grammar get totality only. OPEN FINDING: BED on stdin without --autosql stores the BED3 default.'),
     'C20': ('Python-binding array fillers (pybigtools/src/lib.rs, private helpers of a cdylib, cut as text on every run): per-base `to_array` / `to_entry_array` proved for all inputs by Verus - every requested base holds the stored value (bigBed: the number of covering entries, entries clamped to the request) or `missing`, index arithmetic never wraps also for requests below 0, errors returned at once; range defaulting and the clipping of the query to the chromosome (py_perbase). Out-of-bounds fill and the float facts the proof assumes (NaN tests, widening) checked bit-precisely by Kani/CBMC on the extracted real text within stated bounds (py_bins: BOUNDED, listed under coverage.bounded, never counted as proved); finalisation/initialisation shape of the binned fillers (py_shape when enabled).',
             'NOT decided: the binned routines as a whole (to_array_bins, to_entry_array_bins, to_array_zoom, to_entry_array_zoom use a VecDeque of open bins; CBMC ran out of memory/time on them even for 2 intervals and 2 bins - stated in contracts/py_bins/NOTES.md), hence "each bin reports the mean/min/max over its covered bases" is NOT established; pyo3/numpy glue (`ArrayViewMut` is replaced by a slice by a listed substitution); floats in the Verus unit are uninterpreted. Five defects found here were repaired (known_findings.json).'),
 }
